@@ -8,6 +8,7 @@ NOTE="trusted: go/ssa construction, the executor's instruction semantics (sample
 checks={
  "C03":("bounded symbolic model checking of the window kernel (checkEffective, util.OnOrAfter, time.Time methods from stdlib source) against an independent oracle for all instants under P1","DESIGN.md §8 C03"),
  "C08":("Registry.Filter, lintNamesToMap, sourceListToMap, Empty and the three register functions executed symbolically on registries built through the real registration code; FilterOptions symbolic (arbitrary strings in the name lists, arbitrary source lists, an arbitrary pattern); result compared with the five-clause oracle, plus unchanged source registry (write monitor), kind/pointer identity and inherited configuration","DESIGN.md §8 C08"),
+ "C12":("the three register functions executed symbolically on bounded registration histories (arbitrary names; a four-name pool covering all order types) with the lookup invariant asserted; the real registry is built by executing every package init from SSA and inspected entry by entry; census of Register*Lint call instructions vs registered lints; import-closure side condition","DESIGN.md §8 C12"),
  "C13":("LintSource.FromString/UnmarshalJSON/SourceList.FromString executed symbolically on an unbounded symbolic string; accepted set == declared constants (read from the SSA package)","DESIGN.md §8 C13"),
  "C16":("the RSA key-quality lints run symbolically (through the registry built by the engine-executed init chain) on a certificate with an arbitrary positive modulus (SMT Int) and exponent (64-bit) and compared with arithmetic oracles; trial division by the prime table: table facts + 750 divisor obligations; Fermat: reported factors multiply back (rounds bounded)","DESIGN.md §8 C16"),
  "C18":("GTLDPeriod.Valid, HasValidTLD and IsInTLDMap executed symbolically for every instant, an arbitrary domain (bounded label count) and an arbitrary well-formed delegation table (bounded entry count, arbitrary date strings with time.Parse uninterpreted, plus a replayable concrete-date variant); table facts and per-entry boundary instants of the real 1574-entry table evaluated concretely by the engine","DESIGN.md §8 C18"),
